@@ -7,7 +7,7 @@
         record and is not finished, or it is between the two transactions of DELETE /allocations; when every thread is
         answered, consumers exist exactly while they hold allocations (c12a_final_state). *)
 From PV Require Import Model.ConcAll Proofs.Defs Proofs.C04 Proofs.C10 Proofs.C05 Proofs.C10c Proofs.C05a Proofs.C06a.
-From PV Require Proofs.C01 Proofs.C12 Proofs.C08c.
+From PV Require Proofs.C01 Proofs.C12 Proofs.C08c Proofs.C07d Proofs.C07e Proofs.C19.
 
 (* ================================================================ the heavy tables *)
 Definition hv (d : db) :=
@@ -824,6 +824,123 @@ Proof.
     destruct (HA a Ha) as (_ & _ & k & Hk). apply cgen_has. unfold cgen_of. rewrite <- Ea. unfold a_exec. rewrite Hk. discriminate.
 Qed.
 
+(* ================================================================ C04: projects, users and consumer types only grow *)
+Definition aux_le (d d' : db) : Prop :=
+  incl (projects d) (projects d') /\ incl (users d) (users d') /\ incl (ctypes d) (ctypes d').
+Lemma aux_le_refl d : aux_le d d.
+Proof. repeat split; apply incl_refl. Qed.
+Lemma aux_le_eq d d' : projects d' = projects d -> users d' = users d -> ctypes d' = ctypes d -> aux_le d d'.
+Proof. intros A B C. unfold aux_le. rewrite A, B, C. repeat split; apply incl_refl. Qed.
+Lemma with_aux_self d : C07d.with_aux (C07d.with_aux d [] [] []) (projects d) (users d) (ctypes d) = d.
+Proof. destruct d; reflexivity. Qed.
+(* a transaction that commutes with replacing the auxiliary tables (Proofs/C07e.v) does not touch them *)
+Lemma aux_commute (f : db -> result db) d d' :
+  (forall d0 p u c, f (C07d.with_aux d0 p u c) = C07e.rmap (f d0) p u c) -> f d = Ok d' -> aux_le d d'.
+Proof.
+  intros Hc H. rewrite <- (with_aux_self d), Hc in H. unfold C07e.rmap in H.
+  destruct (f (C07d.with_aux d [] [] [])) as [d1|]; [|discriminate]. injection H as <-. apply aux_le_eq; reflexivity.
+Qed.
+Lemma get_or_create_incl l x : incl l (get_or_create l x).
+Proof. unfold get_or_create. destruct (memZ x l); [apply incl_refl|apply incl_appl, incl_refl]. Qed.
+Lemma aux_names_le cf v d c : aux_le d (aux_names cf v d c).
+Proof.
+  unfold aux_names. cbv zeta. destruct (38 <=? v); repeat split; cbn; try apply get_or_create_incl; apply incl_refl.
+Qed.
+Lemma main_txn_aux_le x ks objs d d' : main_txn x ks objs d = Ok d' -> aux_le d d'.
+Proof. apply (aux_commute (main_txn x ks objs)). intros d0 p u c. apply C07e.main_txn_aux. Qed.
+Lemma prov_write_aux_le r g d : aux_le d (fst (prov_write r g d)).
+Proof.
+  pose proof (C07e.prov_write_aux r g (C07d.with_aux d [] [] []) (projects d) (users d) (ctypes d)) as H.
+  rewrite with_aux_self in H. rewrite H. cbn [fst]. apply aux_le_eq; reflexivity.
+Qed.
+Lemma set_traits_c_aux_le d u g w d' : set_traits_c d u g w = Ok d' -> aux_le d d'.
+Proof. apply (aux_commute (fun d0 => set_traits_c d0 u g w)). intros d0 p u0 c. apply C07e.set_traits_c_aux. Qed.
+Lemma set_aggregates_txn_aux_le d u g w b d' : set_aggregates_txn d u g w b = Ok d' -> aux_le d d'.
+Proof. apply (aux_commute (fun d0 => set_aggregates_txn d0 u g w b)). intros d0 p u0 c. apply C07e.set_aggregates_txn_aux. Qed.
+Lemma rp_create_aux_le d u n p d' : rp_create d u n p = Ok d' -> aux_le d d'.
+Proof. unfold rp_create, bind. intro H. C19.brk H. injection H as <-. apply aux_le_eq; reflexivity. Qed.
+Lemma rp_update_aux_le d me n p b d' : rp_update d me n p b = Ok d' -> aux_le d d'.
+Proof. unfold rp_update, bind. intro H. C19.brk H; injection H as <-; apply aux_le_eq; reflexivity. Qed.
+Lemma rp_delete_aux_le d u d' : rp_delete d u = Ok d' -> aux_le d d'.
+Proof. unfold rp_delete. intro H. C19.brk H. injection H as <-. apply aux_le_eq; reflexivity. Qed.
+
+Lemma t_aux_le t d : aux_le d (fst (tstep t d)).
+Proof.
+  destruct t as [r|r|r g|x todo|x todo acc|x e todo acc|x e todo acc|x ks todo objs|x ks objs|todo r|c0|c0 rows|c0]; cbn [tstep];
+    try apply aux_le_refl.
+  - destruct (prov_target r); [|apply aux_le_refl]. destruct (find_rp d z); [|apply aux_le_refl]. destruct (prov_precheck r r0 d); apply aux_le_refl.
+  - pose proof (prov_write_aux_le r g d) as H. destruct (prov_write r g d). exact H.
+  - destruct todo as [|r rest]; [apply aux_le_refl|]. destruct (find_rp d (ri_rp r)); [|apply aux_le_refl]. destruct (negb _); apply aux_le_refl.
+  - destruct todo as [|e rest]; [apply aux_le_refl|]. cbv zeta. destruct (rq_attrs (x_cf x) (x_v x) e) as [[pj us] ty].
+    destruct (find_cons d (ci_uuid e)); destruct (_ && _); apply aux_names_le.
+  - destruct (rq_attrs (x_cf x) (x_v x) e) as [[pj us] ty]. destruct (find_cons d (ci_uuid e)); cbn [fst]; [apply aux_le_refl|apply aux_le_eq; reflexivity].
+  - destruct (rq_attrs (x_cf x) (x_v x) e) as [[pj us] ty]. destruct (find_cons d (ci_uuid e)); [|apply aux_le_refl]. destruct (28 <=? x_v x); apply aux_le_refl.
+  - destruct todo as [|w rest]; [apply aux_le_refl|]. cbv zeta. destruct w; [apply aux_le_refl|]. destruct (find_rp d (ai_rp a)); apply aux_le_refl.
+  - destruct (main_txn x ks objs d) as [d'|e0] eqn:Em; cbn [fst]; [eapply main_txn_aux_le; exact Em|apply aux_le_refl].
+  - destruct todo as [|u rest]; [apply aux_le_refl|apply aux_le_eq; reflexivity].
+  - destruct (wipe_list d c0); apply aux_le_refl.
+  - apply aux_le_eq; reflexivity.
+  - apply aux_le_eq; reflexivity.
+Qed.
+
+(* any thread, any transaction: rows of projects / users / consumer types are only added (by the consumer look-up of an
+   allocation write, whatever the answer of the request will be) - never removed *)
+Theorem c04a_aux_grow cf t d : aux_le d (snd (astep cf t d)).
+Proof.
+  destruct t as [t0|snap t0|t0|c0|t0|u0 g ts|u0 ts g|u0 ts g lost|v u0 g l|v u0 l g gone|n|n|n|old new|id new|n|id|t1|t1|t1|t1 stale];
+    cbn [astep].
+  - destruct t0 as [r|v u0 name parent|v u0 name parent|v u0 name np g|u0|u0|t0]; cbn [ttstep].
+    + apply aux_le_refl.
+    + unfold h_rp_create. destruct (_ && _); [apply aux_le_refl|].
+      destruct (rp_create d u0 name parent) as [d'|e] eqn:E; [eapply rp_create_aux_le; exact E|destruct e; apply aux_le_refl].
+    + destruct (find_rp d u0); [|apply aux_le_refl]. destruct (_ && _); apply aux_le_refl.
+    + destruct (find_rp d u0) as [me|]; [|apply aux_le_refl].
+      destruct (rp_update d me name np (37 <=? v)) as [d'|e] eqn:E; cbn [rp_update_answer snd]; [eapply rp_update_aux_le; exact E|destruct e; apply aux_le_refl].
+    + destruct (find_rp d u0); apply aux_le_refl.
+    + destruct (rp_delete d u0) as [d'|e] eqn:E; cbn [rp_delete_answer snd]; [eapply rp_delete_aux_le; exact E|destruct e; apply aux_le_refl].
+    + pose proof (t_aux_le t0 d) as H. destruct (tstep t0 d). exact H.
+  - destruct t0 as [r|r|r g|x todo|x todo acc|x e todo acc|x e todo acc|x ks todo objs|x ks objs|todo r|c1|c1 rows|c1];
+      try (match goal with |- context [tstep ?tt d] => pose proof (t_aux_le tt d) as H; destruct (tstep tt d); exact H end).
+    + destruct todo as [|[k|k a] rest];
+        try (match goal with |- context [tstep ?tt d] => pose proof (t_aux_le tt d) as H; destruct (tstep tt d); exact H end).
+      cbn [tstep]. destruct (cache_misses snap (wipe_list d (co_uuid k))); apply aux_le_refl.
+    + unfold main_txn_cached. destruct (main_txn x ks objs (set_rcs d (rcs d ++ stale_rows d snap))) as [d'|e0] eqn:Em; cbn [snd]; [|apply aux_le_refl].
+      apply main_txn_aux_le in Em. exact Em.
+  - apply aux_le_refl.
+  - cbn [tstep]. destruct (wipe_list d c0); apply aux_le_refl.
+  - apply aux_le_refl.
+  - destruct (find_rp d u0); [|apply aux_le_refl]. destruct (negb _); apply aux_le_refl.
+  - destruct (negb _); apply aux_le_refl.
+  - destruct (existsb _ ts); [apply aux_le_refl|]. unfold set_traits_chk. destruct (forallb _ _); [|apply aux_le_refl].
+    destruct (set_traits_c d u0 g ts) as [d'|e] eqn:E; [eapply set_traits_c_aux_le; exact E|destruct e; apply aux_le_refl].
+  - destruct (find_rp d u0); [|apply aux_le_refl]. destruct (_ && _); apply aux_le_refl.
+  - destruct (if gone then None else find_rp d u0); [|apply aux_le_refl].
+    destruct (set_aggregates_txn d u0 g (dedup l) (19 <=? v)) as [d'|e] eqn:E; [eapply set_aggregates_txn_aux_le; exact E|apply aux_le_refl].
+  - unfold rc_create. destruct (rc_id_of_name d n); [apply aux_le_refl|apply aux_le_eq; reflexivity].
+  - destruct (rc_id_of_name d n); apply aux_le_refl.
+  - unfold rc_create. destruct (rc_id_of_name d n); [apply aux_le_refl|apply aux_le_eq; reflexivity].
+  - destruct (rc_id_of_name d old) as [id|]; [|apply aux_le_refl]. destruct (id <? MIN_CUSTOM_RC_ID); apply aux_le_refl.
+  - destruct (negb _); [apply aux_le_refl|]. destruct (_ || _); [apply aux_le_refl|apply aux_le_eq; reflexivity].
+  - destruct (rc_id_of_name d n) as [id|]; [|apply aux_le_refl]. destruct (id <? MIN_CUSTOM_RC_ID); apply aux_le_refl.
+  - destruct (existsb _ (invs d)); [apply aux_le_refl|]. destruct (negb _); [apply aux_le_refl|apply aux_le_eq; reflexivity].
+  - destruct (trait_exists d t1); apply aux_le_refl.
+  - unfold trait_create. destruct (trait_exists d t1); [apply aux_le_refl|apply aux_le_eq; reflexivity].
+  - destruct (negb _); [apply aux_le_refl|]. destruct (is_std_trait t1); apply aux_le_refl.
+  - destruct stale; [apply aux_le_refl|]. destruct (existsb _ (rp_traits d)); [apply aux_le_refl|]. destruct (negb _); [apply aux_le_refl|apply aux_le_eq; reflexivity].
+Qed.
+Lemma aux_le_trans a b c : aux_le a b -> aux_le b c -> aux_le a c.
+Proof. intros (A1 & A2 & A3) (B1 & B2 & B3). repeat split; eapply incl_tran; eassumption. Qed.
+Theorem c04a_aux_grow_sched cf : forall s ts d, aux_le d (snd (a_run_sched cf s ts d)).
+Proof.
+  assert (R : forall ts i d, aux_le d (snd (a_step_raw cf i ts d))).
+  { induction ts as [|t ts IH]; intros i d; [destruct i; apply aux_le_refl|]. destruct i as [|i]; cbn [a_step_raw].
+    - pose proof (c04a_aux_grow cf t d) as H. destruct (astep cf t d). exact H.
+    - specialize (IH i d). destruct (a_step_raw cf i ts d). exact IH. }
+  induction s as [|i s IH]; intros ts d; cbn [a_run_sched]; [apply aux_le_refl|].
+  pose proof (R ts i d) as H. unfold a_step_thread. destruct (a_step_raw cf i ts d) as [ts1 d1]. cbn [snd] in H.
+  eapply aux_le_trans; [exact H|apply IH].
+Qed.
+
 (* ================================================================ examples (start state = the set-up of harness/conc_extra.py) *)
 Definition strays_of (d : db) : list Z :=
   filter (fun c => negb (existsb (fun a => a_cons a =? c) (allocs d))) (map c_uuid (consumers d)).
@@ -862,3 +979,5 @@ Print Assumptions c12a_stray_owed.
 Print Assumptions c12a_final_state.
 Print Assumptions c12a_needs_wf.
 Print Assumptions c04a_delete_without_effect.
+Print Assumptions c04a_aux_grow.
+Print Assumptions c04a_aux_grow_sched.
